@@ -256,7 +256,9 @@ def gen_src(rng):
     return ["result", {"n": max(2, min(n, 12)), "seed": rng.randrange(1, 9)}]
 
 
-def gen_ops(rng, src):
+def gen_ops(rng, src, faults=False):
+    # faults: one-off (transient) component failures and Ctrl-C are fault kinds of C04's own histories; generators that borrow these
+    # pipelines for whole experiments (expsim) must not get them - there a process-wide 'fired once' flag would differ between executions
     kind = src[0]
     ops = []
     has_vec = kind in ("linear", "neighbors", "lambda", "supervised_xy", "supervised_csv", "result", "supervised_arff")
@@ -310,7 +312,7 @@ def gen_ops(rng, src):
         elif o == "logged" and not logged:
             ops.append(["logged", {"learner": weighted(rng, [(["random", {"seed": 2}], 2), (["eps", {"epsilon": 0.3, "seed": 3}], 1), (["counter", {"k": 2, "tag": "lg"}], 1),
                                                                (["info", {"tag": "li", "every": 1 + rng.randrange(3), "skip_first": True,
-                                                                          "transient_raise_at": weighted(rng, [(None, 1), (2 * rng.randrange(1, 4), 1), (rng.randrange(1, 9), 1)])}], 1.5)]),
+                                                                          "transient_raise_at": weighted(rng, [(None, 1), (2 * rng.randrange(1, 4), 1), (rng.randrange(1, 9), 1)]) if faults else None}], 1.5)]),
                                    "seed": weighted(rng, [(1.23, 2), (7, 1)])}]); logged = True
         elif o == "ope_rewards" and logged:
             ops.append(["ope_rewards", {"rewards_type": "IPS"}])
@@ -368,7 +370,7 @@ class C04:
 
     def gen(self, rng, tier, index):
         src = gen_src(rng)
-        return {"src": src, "ops": gen_ops(rng, src), "history": gen_history(rng)}
+        return {"src": src, "ops": gen_ops(rng, src, faults=True), "history": gen_history(rng)}
 
     # ------------------------------------------------------------------
     def run(self, cfg, seed, choices=None):
